@@ -331,6 +331,23 @@ class Check(PropertyCheck):
             # to_mask(mode=mode, subpixels=n) does
             cases.append(G.add_history(rng, {'kind': 'exact/' + kind, 'region': d, 'pick': rng.randrange(1 << 30),
                                              'sub': rng.choice([None, None, 1, 1, 2, 5, 10])}, prob=0.3))
+            if cases[-1].get('prev') is not None:
+                # the object's last use before the re-assignment was the very same to_mask call
+                cases[-1]['warm_mask'] = dict({'mode': 'exact'}, **({} if cases[-1]['sub'] is None else {'subpixels': cases[-1]['sub']}))
+        # the SAME object masked, moved by far less than a pixel (within the tolerance of `==` on positions), masked
+        # again with the same arguments: the second mask is that of the moved shape
+        for _ in range(10 if tier == 'quick' else 200):
+            kind = rng.choice(['circle', 'ellipse', 'ellipse'])
+            c = [rng.uniform(20, 300), rng.uniform(20, 300)]
+            if kind == 'circle':
+                d = {'kind': 'circle', 'c': c, 'r': rng.uniform(1.5, 6.0), 'include': 'absent'}
+            else:
+                d = {'kind': 'ellipse', 'c': c, 'w': rng.uniform(3.0, 9.0), 'h': rng.uniform(2.0, 6.0), 'angle': G.rangle(rng), 'include': 'absent'}
+            prev = dict(d, c=[c[0] * (1 - 6e-6), c[1] * (1 + 5e-6)])
+            sub = rng.choice([None, None, 5])
+            cases.append({'kind': 'exact/' + kind, 'region': d, 'pick': rng.randrange(1 << 30), 'sub': sub, 'prev': prev,
+                          'only_changed': True,
+                          'warm_mask': dict({'mode': 'exact'}, **({} if sub is None else {'subpixels': sub}))})
         # a pixel corner EXACTLY on the ellipse (the kernel has separate `on` branches, tolerance 1e-10 in the
         # normalised squared radius): rational points of the unit circle, pixel corners at half-integers
         cases.append({'kind': 'exact/ellipse', 'pick': 1, 'on_corner': True,
@@ -374,6 +391,8 @@ class Check(PropertyCheck):
             else:
                 d = {'kind': 'ellipse', 'c': c, 'w': rng.uniform(1.5, 9.0), 'h': rng.uniform(1.0, 6.0), 'angle': G.rangle(rng), 'include': 'absent'}
             cases.append(G.add_history(rng, {'kind': 'converge/' + kind, 'region': d, 'pick': rng.randrange(1 << 30), 'n': rng.choice([1, 2, 3, 5, 8, 12])}, prob=0.3))
+            if cases[-1].get('prev') is not None:
+                cases[-1]['warm_mask'] = {'mode': 'subpixels', 'subpixels': cases[-1]['n']}
         for _ in range(16 if tier == 'quick' else 500):
             kind = rng.choice(['rectangle', 'polygon'])
             c = [rng.uniform(-2, 2), rng.uniform(-2, 2)]
@@ -417,12 +436,16 @@ class Check(PropertyCheck):
     def real(self, case):
         reg = G.build_case(case)
         # the same object has been asked for a coarser mask before (a convergence loop n = 1, 2, 4, … does that)
-        reg.to_mask(mode='center')
+        # (not when the case's history ended with the very call under test: that one must stay the latest)
+        direct = bool(case.get('warm_mask'))
+        if not direct:
+            reg.to_mask(mode='center')
         if case['kind'].startswith('converge'):
-            reg.to_mask(mode='subpixels', subpixels=max(1, case['n'] // 2))
+            if not direct:
+                reg.to_mask(mode='subpixels', subpixels=max(1, case['n'] // 2))
             m = reg.to_mask(mode='subpixels', subpixels=case['n'])
         else:
-            if case.get('pick', 0) % 2:
+            if case.get('pick', 0) % 2 and not direct:
                 # an earlier mask of the same request was normalised IN PLACE by its owner (`w = mask.data; w /= w.sum()`),
                 # and an equal region asked for the same mask too: every call returns its own array
                 w0 = reg.to_mask(mode='exact').data
